@@ -98,6 +98,13 @@ def run(ctx, log):
     progs += srcs3 + srcs + srcs2
     inside = sum(1 for a in asts + asts2 if in_f1(a)) + sum(1 for e in small if e[0] != "str" and "str" not in str(e))
     obs = progcheck.pipeline(ctx, progs, log, budget=30000, label="programs")
+    # programs that END in a statement: their value is unspecified (4.3 item 1) but what they print, how they fail and
+    # that the value handed back is a live, well-formed object are not (the model hands back the same graph)
+    wv = []
+    srcs4, _ = progcheck.gen_sources(ctx, 300 if ctx.quick else 6000, with_value_out=wv, max_depth=3, end_with_statement=1.0)
+    obs4 = progcheck.pipeline(ctx, srcs4, log, budget=30000, label="programs-ending-in-a-statement", with_value=wv)
+    for s4 in srcs4:
+        ctx.seen(s4)
     ncomp = 0
     for s, c, o in zip(progs, obs["compile"], obs["eval"]):
         ok = c.startswith("OK")
@@ -114,3 +121,7 @@ def run(ctx, log):
 
 def replay(ctx, data, log):
     progcheck.replay_source(ctx, data, log, budget=30000)
+
+
+def search(ctx, log):
+    progcheck.search_programs(ctx, log, n=4000 if ctx.quick else 40000)
